@@ -168,8 +168,20 @@ class kFlowDecompCycles(walkmodel.AbstractWalkModelDiGraph):
         # Call the constructor of the parent class AbstractPathModelDAG
         # Build per-edge repetition upper bounds: use the edge flow when available,
         # otherwise fall back to self.w_max (e.g., for source/sink helper edges).
+        # The flow value of an ignored edge says nothing about how often a walk may use it: between two
+        # uses of it a walk passes some non-ignored edge, so the total non-ignored flow (+1) bounds its repetitions.
+        ignored_edges = set(self.edges_to_ignore)
+        ignored_edge_upper_bound = 1 + sum(
+            data[self.flow_attr]
+            for u, v, data in self.G.edges(data=True)
+            if self.flow_attr in data and (u, v) not in ignored_edges
+        )
         self.edge_upper_bounds_dict = {
-            (u, v): (data[self.flow_attr] if self.flow_attr in data else self.w_max)
+            (u, v): (
+                data[self.flow_attr]
+                if self.flow_attr in data and (u, v) not in ignored_edges
+                else max(self.w_max, ignored_edge_upper_bound)
+            )
             for u, v, data in self.G.edges(data=True)
         }
         super().__init__(
